@@ -52,7 +52,9 @@ def connected_hg(rng):
 
 
 def run_case(ctx, rng, idx):
-    if idx % 2 == 0:
+    if idx in (1, 3, 5) or idx % 100 == 51:
+        guided_contagion_case(ctx, rng, idx)
+    elif idx % 2 == 0:
         walk_case(ctx, rng, idx)
     else:
         contagion_case(ctx, rng, idx)
@@ -90,6 +92,13 @@ def walk_case(ctx, rng, idx):
 
     if same_count_edit(rng, h, keep_connected=True):  # same object again: a stale transition matrix shows here
         ctx.event("re-evaluated-after-in-place-edit")
+        walk_eval(ctx, rng, idx, h, N)
+    from ..mutate import degree_preserving_swap
+
+    if rng.random() < 0.6 and degree_preserving_swap(rng, h, keep_connected=True):
+        # four edits with no query in between that leave the node count, the hyperedge count, every degree and every size as
+        # they were: whatever was remembered about the walk on this object is about another hypergraph now
+        ctx.event("re-evaluated-after-a-degree-preserving-double-swap")
         walk_eval(ctx, rng, idx, h, N)
     es = list(h.get_edges())
     if len(es) > 1:  # a plain removal (no insertion afterwards) that keeps the hypergraph connected
@@ -227,6 +236,89 @@ class Stream:
             return 0.0 if self.n % 2 else float(np.nextafter(1.0, 0.0))
         r = self.rng.choice(self.rates)  # adjacent to a rate
         return float(min(max(r + self.rng.choice([-1e-12, 0.0, 1e-12]), 0.0), np.nextafter(1.0, 0.0)))
+
+
+def guided_contagion_case(ctx, rng, idx):
+    """Model-guided workload: the REFERENCE simulator searches (a few thousand mutations of a small population) for inputs whose
+    deterministic trajectory is unusual - the longest run of equal, non-zero infected counts that is still followed by a change
+    (the infected SET keeps moving while its size stands still), late changes, long transients - and the library is then run on
+    exactly those inputs.  Random inputs almost never have such trajectories; any shortcut that infers 'nothing will change any
+    more' from the counts is wrong precisely there."""
+    import hypergraphx as hgx
+    from hypergraphx.dynamics import contagion as cg
+
+    T = rng.choice([20, 30])
+
+    def tables(nodes, edges):
+        pairs_nb = {n: set().union(*[set(e) for e in edges if len(e) == 2 and n in e] or [set()]) - {n} for n in nodes}
+        tri = {n: [tuple(set(e) - {n}) for e in edges if len(e) == 3 and n in e] for n in nodes}
+        return pairs_nb, tri
+
+    def plateau(traj, N):
+        c = np.rint(traj * N).astype(int)
+        best, run = 0, 1
+        for t in range(1, len(c)):
+            if c[t] == c[t - 1]:
+                run += 1
+            else:
+                if c[t - 1] > 0 and run > best:
+                    best = run
+                run = 1
+        return best
+
+    for rates in ((1, 1, 1), (1, 0, 1), (0, 1, 1), (1, 1, 1)):
+        nodes = list(range(rng.randint(6, 10)))
+        sizes = [2, 2, 3, 3] if rates[1] else [2, 2, 2, 3]
+        edges = {frozenset(rng.sample(nodes, rng.choice(sizes))) for _ in range(rng.randint(4, 8))}
+        I0 = {n: int(rng.random() < 0.3) for n in nodes}
+
+        def ev(E, I):
+            p_, t_ = tables(nodes, [tuple(e) for e in E])
+            return plateau(reference_contagion(nodes, p_, t_, I, T, *rates), len(nodes))
+
+        best = ev(edges, I0)
+        for _ in range(1500):
+            e2, i2 = set(edges), dict(I0)
+            r = rng.random()
+            if r < 0.35 and len(e2) > 2:
+                e2.remove(rng.choice(sorted(e2, key=sorted)))
+            elif r < 0.7:
+                e2.add(frozenset(rng.sample(nodes, rng.choice(sizes))))
+            else:
+                n_ = rng.choice(nodes)
+                i2[n_] = 1 - i2[n_]
+            sc = ev(e2, i2)
+            if sc >= best:
+                edges, I0, best = e2, i2, sc
+        ctx.event(f"guided-contagion:longest-plateau-followed-by-a-change:{min(best, 12)}")
+        # the library on the input the model found (labels shifted / renamed: the dynamics does not depend on them)
+        ren = rng.choice([lambda n: n, lambda n: 3 * n - 7, lambda n: "v%02d" % n])
+        lab = {n: ren(n) for n in nodes}
+        order = list(nodes)
+        rng.shuffle(order)
+        h = hgx.Hypergraph()
+        for n in order:
+            h.add_node(lab[n])
+        for e in sorted(edges, key=sorted):
+            h.add_edge(tuple(lab[n] for n in e))
+        lnodes = list(h.get_nodes())
+        ledges = [frozenset(e) for e in h.get_edges()]
+        p_, t_ = tables(lnodes, [tuple(e) for e in ledges])
+        LI0 = {lab[n]: v for n, v in I0.items()}
+        ref = reference_contagion(lnodes, p_, t_, LI0, T, *rates)
+
+        def wit(extra=None):
+            return {"nodes": list(map(repr, lnodes)), "edges": [sorted(map(repr, e)) for e in ledges], "I0": {repr(k): v for k, v in LI0.items()}, "T": T,
+                    "beta": rates[0], "beta_D": rates[1], "mu": rates[2], "plateau": best, "extra": repr(extra)[:700]}
+
+        np.random.seed(rng.randrange(2**31))
+        r = call(cg.simplicial_contagion, h, dict(LI0), T, *rates)
+        if isinstance(r, _Raised):
+            ctx.check("C18:contagion-exact", False, f"C18:simplicial_contagion:raised:{type(r.e).__name__}:guided", lambda: wit(r))
+            continue
+        x = np.asarray(r, dtype=float)
+        ctx.check("C18:contagion-exact", x.shape == ref.shape and np.array_equal(x, ref), "C18:contagion:deterministic-trajectory-differs:guided", lambda: wit((x.tolist(), ref.tolist())))
+        ctx.distinct_add(("guided", tuple(sorted(map(lambda e: tuple(sorted(e)), edges))), tuple(sorted(I0.items())), rates, T))
 
 
 def contagion_case(ctx, rng, idx):
